@@ -234,3 +234,78 @@ def count(spec):
 
 def depth_of(spec):
     return max([lvl for _, _, lvl in walk(spec)] or [0])
+
+
+# ---------------------------------------------------------------- attribute-rich trees (C02/C03/C05-C08)
+
+ATTR_SIZES = [0, 0, 1, 9, 10, 10, 11, 99, 100, 100, 101, 999, 1000, 1023, 1024, 1024, 1025, 2048, 4096, 1500000, 3000000]
+ATTR_MODES = [0o644, 0o644, 0o600, 0o755, 0o4755, 0o2750, 0o444, 0o664, 0o711, 0o1777]
+ATTR_UIDS = [0, 0, 1000, 65534]
+ATTR_GIDS = [0, 0, 100, 65534]
+# mtime grid (UTC): around 2020-01-01 .. 2020-01-03 with second-level neighbours and ties
+ATTR_MTIMES = [1577836800 - 1, 1577836800, 1577836800 + 1, 1577836800 + 43200, 1577836800 + 86399,
+               1577836800 + 86400, 1577836800 + 86400 + 3600, 1577836800 + 2 * 86400 + 59, 1583020800,
+               1577836800 + 43200, 1500000000, 1609459199, 1609459200]
+ATTR_FILE_NAMES = ["a", "b.txt", "c.txt", "d.log", "e.LOG", "f.tar.gz", "README", "main.rs", "lib.rs", "x.bin",
+                   "size", "name", "mode", "bin", ".hid", ".cfg.toml", "UP.TXT", "n10", "n9", "n100", "zz.md",
+                   "k.c", "k.h", "long-file-name.txt", "s p.txt", "0", "1", "true"]
+ATTR_DIR_NAMES = ["src", "doc", "a", "b", "t1", "t2", "lib", "x.d", "bin", "size", ".git2", "Zed"]
+
+
+def _content_for(size, nlines):
+    """Deterministic text of exactly `size` bytes with min(nlines, size) newline bytes."""
+    if size <= 0:
+        return ""
+    nl = min(nlines, size)
+    body = size - nl
+    if nl == 0:
+        return "x" * size
+    per = body // nl
+    out = []
+    used = 0
+    for i in range(nl):
+        k = per if i < nl - 1 else body - used
+        out.append("y" * k + "\n")
+        used += k
+    return "".join(out)
+
+
+def attr_file(draw):
+    size = draw(st.sampled_from(ATTR_SIZES))
+    node = {"t": "f"}
+    if size <= 4096:
+        node["c"] = _content_for(size, draw(st.sampled_from([0, 0, 1, 2, 3, 5])))
+    else:
+        node["size"] = size
+    node["mode"] = draw(st.sampled_from(ATTR_MODES))
+    node["mtime"] = draw(st.sampled_from(ATTR_MTIMES))
+    if draw(st.sampled_from(range(3))) == 0:
+        node["uid"] = draw(st.sampled_from(ATTR_UIDS))
+        node["gid"] = draw(st.sampled_from(ATTR_GIDS))
+    return node
+
+
+@st.composite
+def attr_leaf(draw):
+    k = draw(st.sampled_from(["f", "f", "f", "f", "f", "l", "l"]))
+    if k == "f":
+        return attr_file(draw)
+    return {"t": "l", "to": draw(st.sampled_from(["a", "b.txt", "nonexistent", "src", "..", "README"]))}
+
+
+def attr_tree(draw, sizes=(5, 8, 12, 16, 20, 25), max_depth=4, hardlinks=True):
+    dir_node = st.fixed_dictionaries({"mode": st.sampled_from([0o755, 0o755, 0o750, 0o700, 0o2775]),
+                                      "mtime": st.sampled_from(ATTR_MTIMES)})
+    names = st.one_of(st.sampled_from(ATTR_FILE_NAMES), st.sampled_from(ATTR_FILE_NAMES), st.sampled_from(ATTR_DIR_NAMES))
+    spec = grow(draw, list(sizes), names, attr_leaf(), dir_node=dir_node, dir_ratio=(1, 4), max_depth=max_depth)
+    if hardlinks:
+        # extra hard links next to some regular files (link count > 1)
+        for rel, children in [((), spec)] + [(r, subtree(spec, r)) for r in dirs_of(spec)]:
+            files = [n for n, nd in children.items() if nd["t"] == "f"]
+            if files and draw(st.sampled_from(range(4))) == 0:
+                target = draw(st.sampled_from(files))
+                for k in range(draw(st.sampled_from([1, 1, 2]))):
+                    nm = "hl%d_%s" % (k, target)
+                    if nm not in children:
+                        children[nm] = {"t": "h", "to": target}
+    return spec
